@@ -87,7 +87,7 @@ func (fr *Frame) callInner(in ssa.Instruction, c *ssa.CallCommon, st *State, pc 
 		// "at call close assert ..." (and other builtins with side effects):
 		// call-site assertions of the enclosing contract apply to builtins too,
 		// under the name "builtin.<name>" (matched by the suffix "<name>").
-		if fr.top && fr.contract != nil && (b.Name() == "close" || b.Name() == "delete" || b.Name() == "panic") {
+		if fr.top && fr.contract != nil && (b.Name() == "close" || b.Name() == "delete" || b.Name() == "panic" || b.Name() == "append") {
 			name := "builtin." + b.Name()
 			var bargs []Term
 			var btypes []types.Type
@@ -117,7 +117,12 @@ func (fr *Frame) callInner(in ssa.Instruction, c *ssa.CallCommon, st *State, pc 
 				}
 			}
 		}
-		return fr.builtin(in, b, c, st, pc)
+		res := fr.builtin(in, b, c, st, pc)
+		if fr.top && fr.contract != nil && b.Name() == "append" {
+			// "at call append#n let X = result" / "... assume": handled by call()
+			fr.lastCallee, fr.lastOrd = "builtin.append", fr.callOrd["builtin.append"]
+		}
+		return res
 	}
 	var args []Term
 	var argTypes []types.Type
@@ -293,8 +298,8 @@ func (fr *Frame) callArgTerms(c *ssa.CallCommon) ([]Term, []types.Type) {
 // calleeNameOf names the callee of a call the way callInner does, without
 // translating it (used to find the calls that bind let names inside loops).
 func (fr *Frame) calleeNameOf(c *ssa.CallCommon) string {
-	if _, ok := c.Value.(*ssa.Builtin); ok {
-		return ""
+	if b, ok := c.Value.(*ssa.Builtin); ok {
+		return "builtin." + b.Name()
 	}
 	if c.IsInvoke() {
 		return fr.vc.specs.ifaceName(c)
